@@ -107,6 +107,53 @@ def render(t, rng=None, top=True):
     return s
 
 
+def render_with_packages(t, rng):
+    """abstract tree -> (expression in which some operands are abbreviated by packages [nP], {nP: expression of the operand}); expanding the
+    packages (bracketed textual substitution, C10) gives back an expression with the tree t"""
+    pk = {}
+
+    def go(n, top):
+        if not top and len(pk) < 9 and rng.random() < (0.2 if is_leaf(n) else 0.45):
+            key = f"{len(pk) + 1}P"
+            pk[key] = render(n, rng)
+            return "[" + key + rng.choice(["", "", "1..2", " 0..1"]) + "]", True
+        if is_leaf(n):
+            return f"[{conc(n[2])}]", True
+        (l, la), (r, ra) = go(n[1], False), go(n[2], False)
+        if not la:
+            l = "(" + l + ")"
+        if not ra:
+            r = "(" + r + ")"
+        op = rng.choice(["", " "]) if n[0] == "then" else rng.choice([" ", ""]) + rng.choice(__import__("ahb").SPELL[n[0]]) + rng.choice([" ", ""])
+        return l + op + r, False
+
+    return go(t, True)[0], pk
+
+
+async def package_route(t, asg, rng):
+    """resolve + evaluate: 'Muss <expression with packages>' through the resolver with resolve_packages=True and evaluate_ahb_expression_tree
+    -> (fulfilled, conditional) as 'true'/'false'/'none', or an error name; None if no operand was abbreviated"""
+    import ahb
+    from ahbicht.expressions import InvalidExpressionError
+    from ahbicht.expressions.ahb_expression_evaluation import evaluate_ahb_expression_tree
+    from ahbicht.expressions.expression_resolver import parse_expression_including_unresolved_subexpressions
+    expr, pk = render_with_packages(t, rng)
+    if not pk:
+        return None, expr, pk
+    ahb.set_cer_values(rc={conc(k): v for k, v in asg.items()}, fc={conc(k): True for k in FC_KEYS_POOL}, hints={conc(k): ahb.hint_text(k) for k in HINT_KEYS_POOL},
+                       packages=pk)
+    try:
+        tree = await parse_expression_including_unresolved_subexpressions("Muss " + expr, resolve_packages=True)
+        r = (await evaluate_ahb_expression_tree(tree)).requirement_constraint_evaluation_result
+    except InvalidExpressionError:
+        return "invalid", expr, pk
+    except NotImplementedError:
+        return "unsupported", expr, pk
+    except Exception as e:  # noqa: BLE001
+        return f"exception:{type(e).__name__}: {e}"[:200], expr, pk
+    return (B2S[r.requirement_constraints_fulfilled], B2S[r.requirement_is_conditional]), expr, pk
+
+
 RANK = {"or": 1, "xor": 2, "and": 3, "then": 4}
 
 
@@ -316,6 +363,14 @@ async def check_state(mode, state, idx, acc, sd):
         if got["outcome"] != exp:
             acc.v(f"{expr} with {asg}: code reports (fulfilled, conditional)={got['outcome']}, compositional semantics "
                   f"gives {top['st']} = {exp}", dict(case, expected=exp, got=got["outcome"]))
+        if nontrivial and rng.random() < 0.35:
+            # end to end: the same tree written with packages, resolved (C10's substitution) and evaluated as an AHB expression
+            pr, pexpr, pk = await package_route(tree, asg, rng)
+            if pr is not None:
+                acc.count("package_route_evaluations")
+                if pr != exp:
+                    acc.v(f"'Muss {pexpr}' with packages {pk} and {asg}: resolving and evaluating gives {pr}, the expression the packages abbreviate ({expr}) "
+                          f"has {top['st']} = {exp}", dict(case, package_expr=pexpr, packages=pk, expected=exp, got=pr))
         if len(acc.samples) < 3 and nontrivial:
             acc.samples.append({"expr": expr, "asg": asg, "spec_state": top["st"], "spec_outcome": exp, "code_outcome": got["outcome"]})
         if got["hints"] != tuple(top["hint"]):
